@@ -87,6 +87,7 @@ func (m *Mutex) Unlock() {
 	m.held = false
 	s.unlockState()
 	s.pokeIfDead()
+	Yield(ClassUnlock, "mutex.unlocked")
 }
 
 //go:norace
@@ -188,6 +189,7 @@ func (m *RWMutex) RUnlock() {
 	}
 	m.readers--
 	s.unlockState()
+	Yield(ClassUnlock, "rwmutex.runlocked")
 }
 
 //go:norace
@@ -281,6 +283,7 @@ func (m *RWMutex) Unlock() {
 	m.waitR = m.waitR[:0]
 	m.wheld = false
 	s.unlockState()
+	Yield(ClassUnlock, "rwmutex.unlocked")
 }
 
 // RLocker mirrors sync.RWMutex.RLocker.
